@@ -1,6 +1,6 @@
 SPECIFICATION Spec
 CONSTANTS MaxN = 2
-Coords <- C4
+Coords <- C3
 CtrlCoords <- C2
 Radii <- R2
 Rots <- C2
